@@ -737,4 +737,13 @@ class C16(Prop):
         return True, ""
 
 
-PROP = C16()
+from srccall import with_src  # noqa: E402
+
+# translated source: _mac_arch / _mac_binary_formats / _parse_glibc_version / _glibc_version_string are proved equal to
+# Plat.macArch / macBinaryFormats / parseGlibcVersion / glibcVersionString (the two glibc probes are environment reads)
+PROP = with_src(C16(), share=12, functions=["_mac_arch", "_mac_binary_formats", "_parse_glibc_version", "_glibc_version_string"],
+                module="PkgProofs.Props.Src.Platform",
+                theorems=["Src._mac_arch_translated", "Src._mac_arch_eq_model",
+                          "Src._mac_binary_formats_translated", "Src._mac_binary_formats_eq_model",
+                          "Src._parse_glibc_version_translated", "Src._parse_glibc_version_eq_model",
+                          "Src._glibc_version_string_translated", "Src._glibc_version_string_eq_model"])
